@@ -129,6 +129,10 @@ class Builder:
         self.fns.pop("__discs__", None)
         self.fns.pop("__items__", None)
         self.items: Dict[str, dict] = dict(items or {})       # const / static items by name (nested ones are added by _scan_items)
+        self.items_by_idx: Dict[int, dict] = {}
+        for it_ in self.items.values():
+            if isinstance(it_, dict) and it_.get("def_index") is not None:
+                self.items_by_idx[it_["def_index"]] = it_
         self.discs = discs                      # variant -> discriminant (for `self as <int>`), when the caller knows them
         self.nodes = 0
         self.next_fid = 1
@@ -148,6 +152,8 @@ class Builder:
                     self.fns.setdefault(n["def"], {"name": n.get("name"), "body": n["body"], "nested": True})
                 elif n.get("item") in ("const", "static"):
                     self.items.setdefault(n["name"], n)
+                    if n.get("def_index") is not None:
+                        self.items_by_idx[n["def_index"]] = n       # several blocks may each declare an item of the same name
 
     # ---------------------------------------------------------------- helpers
     def br(self, atom: tuple, t: Any, f: Any, src: Any = None, sub: int = 0) -> Br:
@@ -186,6 +192,8 @@ class Builder:
         if k == "mcall" and str(e.get("def", "")).startswith("phf::") and e.get("name") == "get":
             return True
         if k == "mcall" and e.get("def") == "core::str::<impl str>::strip_prefix":
+            return True
+        if k == "mcall" and str(e.get("def", "")).startswith("core::slice::<impl [T]>::binary_search"):
             return True
         if k == "bin" and e.get("op") in ("&&", "||"):
             return True
@@ -247,6 +255,11 @@ class Builder:
             return v["prefix"]
         return None
 
+    def item_of(self, path: dict) -> Optional[dict]:
+        if path.get("def_index") is not None and path["def_index"] in self.items_by_idx:
+            return self.items_by_idx[path["def_index"]]
+        return self.items.get((path.get("written") or "").split("::")[-1])
+
     def array_of(self, v: Any) -> Optional[dict]:
         """The array literal a place expression denotes (directly, behind `&`, or through a const / static item)."""
         for _ in range(6):
@@ -256,7 +269,7 @@ class Builder:
             if v.get("k") == "array":
                 return v
             if v.get("k") == "path" and str(v.get("dk", "")).startswith(("Const", "Static")):
-                it = self.items.get((v.get("written") or "").split("::")[-1])
+                it = self.item_of(v)
                 if it is None or not it.get("body"):
                     return None
                 v = it["body"]["tree"]
@@ -375,7 +388,7 @@ class Builder:
         if v.get("k") == "path" and str(v.get("dk", "")).startswith(("Const", "AssocConst")):
             if v.get("value") is not None:
                 return _parse_int(v["value"])
-            it = self.items.get((v.get("written") or "").split("::")[-1])
+            it = self.item_of(v)
             if it is not None and it.get("value") is not None:
                 return _parse_int(it["value"])
         return None
@@ -491,6 +504,10 @@ class Builder:
                 op = node["op"]
                 val = (la != lb) if op == "!=" else _cmp(la, op, lb)
                 return kont({"k": "lit", "ty": "bool", "v": bool(val)}, fr)
+        if k == "field" and str(node.get("name", "")).isdigit():
+            base = peel(node.get("e"))
+            if isinstance(base, dict) and base.get("k") == "tup" and int(node["name"]) < len(base["elems"]):
+                return kont(base["elems"][int(node["name"])], fr)
         if k == "index":
             arr = self.array_of(node["e"])
             if arr is not None:
@@ -533,6 +550,11 @@ class Builder:
                     return kont({"k": "call", "f": co[0], "args": [inner]}, fr)
                 if isinstance(recv, dict) and recv.get("k") == "path" and recv.get("def") == NONE:
                     return kont(recv, fr)
+            # TABLE.binary_search_by(|e| key(e).cmp(s)) / TABLE.binary_search(&s) over a constant table of string keys
+            if node["name"] in ("binary_search_by", "binary_search") and d.startswith("core::slice::<impl [T]>::binary_search"):
+                folded = self.binary_search(node, fr, kont)
+                if folded is not None:
+                    return folded
             # s.strip_prefix("lit") -> Option<suffix of s>
             if d == "core::str::<impl str>::strip_prefix" and self.role(recv) == "str" and len(node["args"]) == 1:
                 a0 = peel(node["args"][0])
@@ -547,10 +569,75 @@ class Builder:
         # children are already substituted values; paths / literals at this level need nothing
         return node
 
+    def binary_search(self, node: dict, fr: Frame, kont) -> Optional[Any]:
+        """`Ok(i)` iff the input equals key i of a constant table that is strictly ascending in the comparator's order (plain
+        `str` order: byte-wise), `Err(_)` otherwise. On a table that is not sorted the result of a binary search is
+        unspecified: that is reported as such (Unrecognised with the offending pair), never guessed."""
+        arr = self.array_of(node["recv"])
+        if arr is None:
+            return None
+        key_of = None
+        if node["name"] == "binary_search":
+            if len(node["args"]) != 1 or self.role(node["args"][0]) != "str":
+                return None
+            key_of = lambda el: el
+        else:
+            if len(node["args"]) != 1:
+                return None
+            clo = H.strip(node["args"][0])
+            if not (isinstance(clo, dict) and clo.get("k") == "closure" and len(clo.get("params", [])) == 1):
+                return None
+            prm = clo["params"][0]
+            # |probe| .. , |&(k, _)| .. , |(k, _)| ..
+            pid, tuple_idx = None, None
+            q = prm
+            while isinstance(q, dict) and q.get("k") in ("pref", "pderef"):
+                q = q["pat"]
+            if isinstance(q, dict) and q.get("k") == "bind":
+                pid = q["id"]
+            elif isinstance(q, dict) and q.get("k") == "ptup":
+                for i_, sp_ in enumerate(q.get("pats", [])):
+                    b_ = H.binding(sp_)
+                    if b_ is not None:
+                        if pid is not None:
+                            return None
+                        pid, tuple_idx = b_["id"], i_
+            if pid is None:
+                return None
+            co = H.call_of(clo["body"])
+            if not (co and co[0].get("def") in ("core::cmp::Ord::cmp",) and len(co[1]) == 2):
+                return None
+            a_, b_ = co[1]
+            if self.role(b_) != "str":
+                return None          # cmp(target, element) would invert the search; anything else is not understood
+            ka = peel(a_)
+            if isinstance(ka, dict) and ka.get("k") == "local" and ka.get("id") == pid:
+                key_of = (lambda el: el) if tuple_idx is None else (lambda el, i_=tuple_idx: (H.strip(el).get("elems") or [None] * (i_ + 1))[i_])
+            elif isinstance(ka, dict) and ka.get("k") == "field" and tuple_idx is None:
+                base = peel(ka.get("e"))
+                if isinstance(base, dict) and base.get("k") == "local" and base.get("id") == pid and str(ka.get("name", "")).isdigit():
+                    key_of = lambda el, i_=int(ka["name"]): (H.strip(el).get("elems") or [None] * (i_ + 1))[i_]
+            if key_of is None:
+                return None
+        keys = []
+        for el in arr["elems"]:
+            kv = self.str_const(key_of(H.strip(el)) if key_of else None)
+            if kv is None:
+                return None
+            keys.append(kv)
+        for x, y in zip(keys, keys[1:]):
+            if not x.encode("utf-8") < y.encode("utf-8"):
+                raise Unrecognised("binary search over a table that is not strictly ascending in `str` order (%r is followed by %r): its result is unspecified" % (x, y), node)
+        ok_path = {"k": "path", "def": OK, "dk": "Ctor(Variant, Fn)", "written": "Ok", "variant": "Ok", "adt": "core::result::Result"}
+        err_path = {"k": "path", "def": ERR, "dk": "Ctor(Variant, Fn)", "written": "Err", "variant": "Err", "adt": "core::result::Result"}
+        tree = kont({"k": "call", "f": err_path, "args": [{"k": "lit", "ty": "int", "v": "0", "opaque": "insertion point"}]}, fr)
+        for i_ in reversed(range(len(keys))):
+            tree = self.br(("seq", keys[i_]), kont({"k": "call", "f": ok_path, "args": [{"k": "lit", "ty": "int", "v": str(i_)}]}, fr), tree, node, i_)
+        return tree
+
     def phf_get(self, node: dict, fr: Frame, kont) -> Any:
         r = peel(node["recv"])
-        name = (r.get("written") or "").split("::")[-1] if isinstance(r, dict) and r.get("k") == "path" else None
-        it = self.items.get(name) if name else None
+        it = self.item_of(r) if isinstance(r, dict) and r.get("k") == "path" else None
         if it is None or it.get("item") != "static":
             raise Unrecognised("phf lookup on something that is not a static declared in the function", node)
         entries = phf_entries(it)
